@@ -89,6 +89,25 @@ func genC02Enum(g *Gen) any {
 }
 
 func genC02Sampled(g *Gen) any {
+	if g.Bool(0.15) {
+		// a frame that lags hundreds of frames behind (a slow connection while the
+		// others keep delivering): tiny payloads, large reorder distance
+		n := g.Int(200, 700)
+		sc := &C02Scenario{N: n, PatKey: g.Rng.Uint64(), Reader: g.Int(0, 2), Closing: g.Bool(0.5), ReadBuf: 70000}
+		late := g.Pick(0, 0, 1, g.Int(0, n/4))
+		for i := 0; i < n; i++ {
+			if i != late {
+				sc.Order = append(sc.Order, i)
+			}
+		}
+		at := g.Pick(n-1, n-1, g.Int(n/2, n-1))
+		sc.Order = append(sc.Order[:at], append([]int{late}, sc.Order[at:]...)...)
+		sc.Start = []uint64{0, 1<<32 - 100, ^uint64(0) - uint64(n) - 1}[g.Rng.IntN(3)]
+		for k := 0; k < n; k++ {
+			sc.Sizes = append(sc.Sizes, g.Int(1, 8))
+		}
+		return sc
+	}
 	n := g.Int(6, 64)
 	sc := &C02Scenario{N: n, PatKey: g.Rng.Uint64(), Reader: g.Int(0, 2), Closing: g.Bool(0.5)}
 	sc.Order = g.Rng.Perm(n)
